@@ -256,17 +256,22 @@ class Runner:
             if case["what"] == "outdir-prefix":
                 # filesystem storage whose journal directory is a *sibling* of the output directory with a name that starts
                 # like it (books/out vs books/outgoing): every journal file is input; a fault in one of them fails the run
-                jdir = os.path.join(cdir, "books", "outgoing", "txns")
-                odir = os.path.join(cdir, "books", "out")
-                os.makedirs(jdir)
+                # journal directory <cdir>/books/txns with good files; the faulty one in its sub-directory `outgoing`;
+                # the output directory is the sibling `out` of that sub-directory
+                jdir = os.path.join(cdir, "books", "txns")
+                odir = os.path.join(jdir, "out")
+                os.makedirs(os.path.join(jdir, "outgoing"))
+                os.makedirs(os.path.join(jdir, "2024"))
                 os.makedirs(odir)
                 with open(os.path.join(jdir, "good.txn"), "w") as f:
                     f.write("2024-01-01 'ok\n e:x  1\n a:cash\n")
-                with open(os.path.join(jdir, "bad.txn"), "w") as f:
+                with open(os.path.join(jdir, "2024", "more.txn"), "w") as f:
+                    f.write("2024-02-01 'ok too\n e:y  2\n a:cash\n")
+                with open(os.path.join(jdir, "outgoing", "bad.txn"), "w") as f:
                     f.write(case["bad"])
                 with open(cfg, "w") as f:
                     f.write(config_text(probe, "fs", case["reports"], case["exports"]).replace(
-                        'fs = { path = "%s"' % os.path.join(probe, "data"), 'fs = { path = "%s"' % os.path.join(cdir, "books", "outgoing")))
+                        'fs = { path = "%s"' % os.path.join(probe, "data"), 'fs = { path = "%s"' % os.path.join(cdir, "books")))
                 p = subprocess.run([common.TK_CLI, "--config", cfg, "--output.dir", odir, "--output.prefix", PREFIX],
                                    stdout=subprocess.PIPE, stderr=subprocess.PIPE, timeout=120, cwd=cdir)
                 return {"r": "OK", "exit": p.returncode, "present": {n: 0 for n in sorted(os.listdir(odir))},
@@ -794,7 +799,7 @@ class C14(PropBase):
             if case["what"] == "outdir-prefix":
                 if ex == 0 or impl["present"]:
                     return {"sig": "faulty-file-ignored:outdir-prefix",
-                            "what": "journal directory books/outgoing holds a faulty file, output directory books/out: exit %s, files written %s" % (
+                            "what": "journal sub-directory txns/outgoing holds a faulty file, output directory txns/out: exit %s, files written %s" % (
                                 ex, sorted(impl["present"]))}
                 return None
             planned = [fname(t) for t in case["reports"] + case["exports"]]
